@@ -13,14 +13,16 @@ THEOREMS = ["constants_consistent", "sha256_is_256_bit", "convert_is_identity", 
             "dist_zero_iff_digest_eq", "dist_zero_equal_or_collision", "dist_zero_of_equal_bytes", "dist_bound", "dist_triangle", "dist_form_independent",
             "sort_sorted", "sort_perm", "sort_prefix", "sort_returns_n_nearest", "sort_by_address_is_by_key", "sort_error_iff",
             "returns_requested_number_or_error_refuted", "returns_requested_number_or_error_outside_known",
-            "known_short_list_exact", "range_filter_exact", "fetcher_range_filter_exact",
+            "known_short_list_exact", "close_peers_client_spec", "close_peers_node_spec", "range_filter_exact", "fetcher_range_filter_exact",
             "fetcher_order_closest_first", "fetch_schedule_closest_first", "fetch_acceptor_is_spec",
             "fetch_history_agreement_sound", "farthest_on_full_exact", "fullness_bound_invariant", "store_distance_index_exact", "closest_peers_spec",
             "candidates_spec"]
 RULE = ("addresses of all six kinds (peer bytes incl. non-PeerId byte strings, chunk, register, scratchpad, "
         "transaction, raw record key) and the record-key form of each; peers are sha2-256 and identity multihash "
         "PeerIds incl. duplicates, 0-40 per case with boundary sizes 0,1,4,5,6; requested counts 0..|peers|+2; "
-        "ranges 0, exact distance of a chosen element -1/0/+1, 2^256-1, random; routing tables of 0-40 peers; "
+        "closest-peers lookups of a client and of a node through a real Network handle whose swarm side answers the query "
+        "with 0..20 peers with / without the asker's own id (once or twice, any position), sizes CLOSE_GROUP_SIZE-2..+4, "
+        "targets incl. the asker's own address; ranges 0, exact distance of a chosen element -1/0/+1, 2^256-1, random; routing tables of 0-40 peers; "
         "fetcher adverts of 2-18 distinct keys; fetcher scheduling histories (2-3 holders with overlapping adverts of "
         "6-70 (key,type)s incl. one key under two types, backlog above MAX_PARALLEL_FETCH, completions freeing slots "
         "closest-first or at random, early completions, plain scheduling calls, optional range; every second history "
@@ -253,6 +255,21 @@ def gen(ctx, binary):
         me = rng.choice(peers)
         rg = a_range({"t": "peerid", "b": me}, [bytes.fromhex(k) for k in keys])
         cases.append({"op": "store_count", "n": i, "self": me, "keys": keys, "range": str(rg)})
+    # closest-peers lookups of a client / a node: query results that do / do not list the asker itself, at the size
+    # boundaries CLOSE_GROUP_SIZE-1 .. CLOSE_GROUP_SIZE+3 others (and beyond), targets incl. the asker's own address
+    for i in range(70 * scale):
+        n_others = rng.choice([0, 1, CGS - 2, CGS - 1, CGS - 1, CGS, CGS, CGS + 1, CGS + 1, CGS + 2, CGS + 2, CGS + 3,
+                               CGS + 3, CGS + 4, 12, 20])
+        found = rng.sample(peers[:70], n_others)
+        if n_others >= 2 and rng.random() < 0.15:
+            found.append(found[0])                         # a duplicate other peer
+        with_self = rng.random() < 0.65
+        if with_self:
+            for _ in range(rng.choice([1, 1, 1, 2])):      # the asker listed once (or twice)
+                found.insert(rng.randrange(0, len(found) + 1), "self")
+        t = {"t": "self"} if (with_self and rng.random() < 0.45) else typed()
+        cases.append({"op": "close_peers", "self_seed": rb(rng, 32).hex(), "client": rng.random() < 0.7,
+                      "found": found, "a": t})
     # fetch scheduling histories: 2-3 holders advertising overlapping key sets, a backlog larger than the
     # free capacity, fetches in flight, completions that free a few slots, plain scheduling calls
     for i in range(36 * scale):
@@ -539,6 +556,38 @@ def oracle(c, o):
         else:
             v.append(("unexpected-error", str(o.get("err"))))
         return v
+    if op == "close_peers":
+        me = o["self"]
+        if c["a"]["t"] == "self":
+            if o["abytes"] != me:
+                v.append(("address-bytes", "target is not the asker's own address"))
+        else:
+            check_bytes(c, c["a"], o["abytes"], v)
+        found = [me if p == "self" else p for p in c["found"]]
+        if found != o["found_peers"]:
+            v.append(("harness", "query answer not as requested"))
+        ht = H(bytes.fromhex(o["abytes"]))
+        # a client is never one of its own close peers and never counts; a node keeps itself
+        known = [p for p in found if p != me] if c["client"] else found
+        want = stable_closest(known, lambda p: ht ^ H(bytes.fromhex(p)))[:CGS + CGS // 2]
+        if o["code"] == 0:
+            if len(known) < CGS:
+                v.append(("close-peers-too-few", "%s: only %d %speers known (fewer than CLOSE_GROUP_SIZE) but Ok with %d entries"
+                          % ("client" if c["client"] else "node", len(known), "other " if c["client"] else "", len(o["l"]))))
+            elif o["l"] != want:
+                v.append(("close-peers", "%s: %d %speers known, got %d entries, the nearest %d in ascending XOR distance are "
+                          "expected%s" % ("client" if c["client"] else "node", len(known), "other " if c["client"] else "",
+                                          len(o["l"]), len(want),
+                                          " (the asker itself is in the result)" if c["client"] and me in o["l"] else "")))
+        elif o["code"] == 1:
+            if len(known) >= CGS:
+                v.append(("spurious-error", "NotEnoughPeers with %d peers known" % len(known)))
+            elif o["found"] != len(known) or o["required"] != CGS:
+                v.append(("error-fields", "NotEnoughPeers{found:%s,required:%s} with %d %speers known" % (
+                    o["found"], o["required"], len(known), "other " if c["client"] else "")))
+        else:
+            v.append(("unexpected-error", str(o.get("err"))))
+        return v
     if op == "in_range":
         check_bytes(c, c["a"], o["abytes"], v)
         ht = H(bytes.fromhex(o["abytes"]))
@@ -681,6 +730,13 @@ def model_term(c, o):
         if op == "sort_addr":
             return "agree_sort_addr %s %s %s %s %s" % (S, cpeers(c["peers"]), caddr(c["a"], o["abytes"]), cN(c["n"]), res)
         return "agree_sort_key %s %s %s %s %s" % (S, cpeers(c["peers"]), cbytes(c["pre"]), cN(c["n"]), res)
+    if op == "close_peers":
+        if o["code"] not in (0, 1):
+            return "false"
+        a = "(APeer %s)" % cbytes(o["abytes"]) if c["a"]["t"] == "self" else caddr(c["a"], o["abytes"])
+        return "agree_close_peers %s %s %s %s %s %s %s %s %s" % (
+            S, cbytes(o["self"]), "true" if c["client"] else "false", cpeers(o["found_peers"]), a,
+            cN(o["code"]), cN(o.get("found", 0)), cN(o.get("required", 0)), cpeers(o.get("l", [])))
     if op == "in_range":
         return "agree_in_range %s %s %s %s %s" % (S, cpeers(c["peers"]), caddr(c["a"], o["abytes"]),
                                                  cN(int(c["range"])), cpeers(o["l"]))
@@ -740,8 +796,9 @@ def model_term(c, o):
                 cents(step["post_p"]), cents(step["post_o"]), far(step["post_far"])))
         ks = sorted(kidx, key=kidx.get)
         hl = sorted(hidx, key=hidx.get)
-        return ("(let ks := %s in let hl := %s in let k := fun i => nth i ks [] in let h := fun i => nth i hl [] in "
-                "let e := fun i t j => (k i, t, h j) in agree_fetch_sched %s %s %s %s ks %s)" % (
+        return ("(let ks : list (list N) := %s in let hl : list (list N) := %s in "
+                "let k := fun i : nat => nth i ks [] in let h := fun i : nat => nth i hl [] in "
+                "let e := fun (i : nat) (t : N) (j : nat) => (k i, t, h j) in agree_fetch_sched %s %s %s %s ks %s)" % (
                     cpeers(ks), cpeers(hl), S, cbytes(c["self"]), cN(o["max_parallel"]),
                     copt(c["range"], lambda r: cN(int(r))), clist(recs)))
     if op == "store_count":
@@ -761,6 +818,10 @@ def show(c, o):
         return "sort_peers_by_address %s %s %s %s" % (S, cpeers(c["peers"]), caddr(c["a"], o["abytes"]), cN(c["n"]))
     if op == "sort_key":
         return "sort_peers_by_key %s %s (%s %s) %s" % (S, cpeers(c["peers"]), S, cbytes(c["pre"]), cN(c["n"]))
+    if op == "close_peers":
+        a = "(APeer %s)" % cbytes(o["abytes"]) if c["a"]["t"] == "self" else caddr(c["a"], o["abytes"])
+        return "get_all_close_peers %s %s %s %s %s" % (S, cbytes(o["self"]), "true" if c["client"] else "false",
+                                                      cpeers(o["found_peers"]), a)
     if op == "in_range":
         return "get_peers_in_range %s %s %s %s" % (S, cpeers(c["peers"]), caddr(c["a"], o["abytes"]), cN(int(c["range"])))
     if op == "closest":
@@ -795,6 +856,11 @@ def nontrivial(c, o):
     if op in ("sort_addr", "sort_key"):
         n, k = c["n"], len(c["peers"])
         return (op, o["code"], size_class(k), (n > k) - (n < k), min(n, 8), c.get("a", {}).get("t"))
+    if op == "close_peers":
+        me = o["self"]
+        others = len([p for p in o["found_peers"] if p != me])
+        return (op, c["client"], "self" in c["found"], min(others, CGS + 4), o["code"], len(o.get("l", [])),
+                c["a"]["t"] == "self", me in o.get("l", []))
     if op == "in_range":
         return (op, size_class(len(c["peers"])), size_class(len(o["l"])), len(o["l"]) == len(c["peers"]), c["a"]["t"])
     if op == "closest":
